@@ -182,6 +182,7 @@ def run(tier):
                            'corruptions_reference_rejects': _note_sum(rep, 'radius_corruptions_ref_reject'),
                            'corruptions_reference_accepts(unprotected byte)': _note_sum(rep, 'radius_corruptions_ref_accept'),
                            'corruptions_not_compared(receiver-defined)': _note_sum(rep, 'radius_corruptions_unspecified'),
+                           'corruptions_not_compared_because_code_became_12_13_43': _note_sum(rep, 'radius_corruptions_unspecified_code_flip'),
                            'wrong_secret_trials': _note_sum(rep, 'radius_wrong_secret_trials'),
                            'wrong_secret_reference_accepts(Access-Request without Message-Authenticator)': _note_sum(rep, 'radius_wrong_secret_ref_accept'),
                            'duplicate_adds_refused': _note_sum(rep, 'radius_duplicate_adds_refused'),
